@@ -185,7 +185,7 @@ func (ev *evaluator) mslConvertValue(v Value, to *Type) Value {
 			r.C[i] = c
 		}
 		return r
-	case from.Kind == KVec && to.Kind == KVec && from.N == to.N:
+	case (from.Kind == KVec && to.Kind == KVec && from.N == to.N) || (from.Kind == KMat && to.Kind == KMat && from.Cols == to.Cols && from.Rows == to.Rows):
 		r := ev.mk(to)
 		for i := range r.C {
 			r.C[i] = ev.mslConvCell(v.C[i], from.Elem, to.Elem)
@@ -554,9 +554,9 @@ func (ev *evaluator) mslScalarBinary(op string, k, rk *Type, a, b Cell) (Cell, s
 	case k.Kind == KBool:
 		x, y := a.Bool(), b.Bool()
 		switch op {
-		case "&":
+		case "&", "&&":
 			return boolCell(x && y), ""
-		case "|":
+		case "|", "||":
 			return boolCell(x || y), ""
 		case "^", "!=":
 			return boolCell(x != y), ""
